@@ -581,3 +581,12 @@ Proof.
   { unfold qnat, nbx. rewrite Z2Nat.id by (unfold nbx in Hn; lia). rewrite <- inject_Z_mult. rewrite <- Hdiv. reflexivity. }
   pose proof (qnat_pos (nbx s) Hn). unfold xhi, xlo. rewrite E. field. lra.
 Qed.
+
+(* F15 on a SQUARE screen: same shape, but the ParameterBeam peak is at [x index][flipped y index] of the nearest
+   left/bottom pixel EDGES -- (7, 4) -- while the particle image of the same point peaks in pixel (row 5, column 6) *)
+Definition f15b_screen : screen := mkscreen 8 8 1 (1#2) (1#2) 0 0 true false.
+Lemma param_peak_refuted :
+  reading_shape f15b_screen (Some (Params 0 0 0 0 1)) = reading_shape f15b_screen (Some (Particles [])) /\
+  pixel_of f15b_screen (mkP (21#16) 0 (-(11#16)) 0 1 1) = Some (5%nat, 6%nat) /\
+  param_peak f15b_screen (21#16) (-(11#16)) = (7%nat, 4%nat).
+Proof. repeat split; vm_compute; reflexivity. Qed.
